@@ -127,13 +127,28 @@ func checkC36(r *ev.Run) {
 		aclJSON, _ := json.Marshal(map[string]interface{}{"type": aclWrap.Type, "value": newACL})
 		p.B.Begin(60)
 		p.add("change_param", chain.MsgChangeParam(chain.Addr(owner), "gov/acl", aclJSON), owner, nil, map[string]string{"key": "gov/acl", "relation": "owner", "value": string(aclJSON), "mutated": "true", "setup": "true"})
-		p.B.End()
+		// in every other script the handed key is exercised in the very block that hands it over (the previous owner must
+		// lose the right, and the new one gain it, from the next transaction on, not from the next block on)
+		sameBlock := si%2 == 1
+		if !sameBlock {
+			p.B.End()
+		}
 		order := rr.Perm(len(keys))
 		// risky keys last
 		sort.SliceStable(order, func(i, j int) bool { return !c36risky[keys[order[i]]] && c36risky[keys[order[j]]] })
-		for _, ki := range order {
+		if sameBlock {
+			for i, ki := range order {
+				if keys[ki] == handed {
+					order = append(append([]int{ki}, order[:i]...), order[i+1:]...)
+					break
+				}
+			}
+		}
+		for oi, ki := range order {
 			k := keys[ki]
-			p.B.Begin(60)
+			if !(sameBlock && oi == 0) {
+				p.B.Begin(60)
+			}
 			signers := []struct {
 				key int
 				rel string
